@@ -349,6 +349,17 @@ func TestVerif_FsDiff(t *testing.T) {
 	for i, w := range walks {
 		runFsScenario(t, tr, w, i%2 == 1, "tlc", i)
 	}
+	// fixed sequences for the composites whose interesting cases random walks rarely reach: Glob with meta characters in the
+	// directory part over several directories, Walk / RemoveAll over nested trees and through links
+	mk := func(op string, p ...string) fsStep { return fsStep{Op: op, P: p} }
+	globTree := []fsStep{mk("Mkdir", "a"), mk("Mkdir", "b"), mk("Create", "c"), mk("Create", "a", "a"), mk("Create", "a", "b"), mk("Create", "b", "a"), mk("Mkdir", "b", "c"),
+		{Op: "Symlink", K: "la", Q: []string{"a", "c"}}}
+	for i, k := range []string{"wild", "class", "", "wild", "class"} {
+		steps := append([]fsStep(nil), globTree...)
+		steps = append(steps, fsStep{Op: "Glob", K: k}, fsStep{Op: "Glob", P: []string{"a"}}, fsStep{Op: "Glob", P: []string{"b"}, K: k}, mk("Walk"), mk("Walk", "a"), mk("ReadDir", "a"),
+			mk("RemoveAll", "a", "c"), mk("RemoveAll", "b"), fsStep{Op: "Glob", K: k}, mk("RemoveAll", "a"), mk("Walk"))
+		runFsScenario(t, tr, steps, i%2 == 1, "fixed", i)
+	}
 	r := vRand(51)
 	n := 120
 	if vThorough() {
